@@ -55,6 +55,10 @@ func genPing(prop string, seed uint64, tier string) Scenario {
 		if r.chance(1, 5) {
 			sc.Ops = append(sc.Ops, Op{K: "unsolicited", T: 100, I: r.n(2), N: r.n(40), D: r.n(5), P: r.n(2)})
 		}
+		if r.chance(1, 14) {
+			// the next write(s) to the wire fail: a ping whose echo request cannot be sent returns that error
+			sc.Ops = append(sc.Ops, Op{K: "wfault", T: 101, N: 1 + r.n(2), D: r.n(5)})
+		}
 	}
 	return sc
 }
@@ -89,6 +93,7 @@ func runPing(e *exec) {
 	w := e.w
 	u := w.U
 	var plans []replyPlan
+	wfaults := 0 // write errors armed on the wire
 	ops := e.sc.Ops
 	c := newConc(e, nil)
 	body := func(a *actor, i int, o Op) {
@@ -105,6 +110,10 @@ func runPing(e *exec) {
 				}
 				return 0, w.S.Ping(dst, to)
 			})
+		case "wfault":
+			simrt.NetCtl(simrt.NetCtlWriteErrTemp, o.N)
+			wfaults += o.N
+			e.probe("write_fault_armed")
 		case "unsolicited":
 			// an echo reply nobody asked for, with a guessed identifier
 			id := uint16(1 + o.N)
@@ -249,11 +258,18 @@ func runPing(e *exec) {
 		}
 		pings = append(pings, pi)
 	}
+	sendFailures := 0
 	for _, p := range pings {
 		r := p.rec
 		to := effTimeout(r.Op.X)
 		dead := r.TInv + to
 		what := fmt.Sprintf("ping op %d (actor %d, v6=%v, timeout %v, behaviour %d, latency %v) invoked %v returned %v err=%q id=%d", r.Idx, r.Actor, r.Op.I == 1, to, r.Op.P%numRB, replyLatency[r.Op.N%len(replyLatency)], r.TInv, r.TRet, r.Err, p.id)
+		if r.Err != "" && r.Err != packet.ErrTimeout.Error() && sendFailures < wfaults {
+			// the echo request met an injected write error: the ping reports it; nothing else is owed
+			sendFailures++
+			e.probe("ping_send_failed")
+			continue
+		}
 		if !p.hasID {
 			e.violate("C19.request", "no-echo-request", what+": no echo request was written during the call")
 			continue
